@@ -79,8 +79,8 @@ Proof.
       intros H. assert (NS.mem i (ms_mask ms2) = true) as H' by (destruct o; exact H).
       apply IH in H'. rewrite X5 in H'. destruct (NS.mem x (ms_mask ms0)); [|assumption].
       rewrite ns_mem_remove in H'. destruct (N.eq_dec x i); [discriminate|assumption]. }
-    intros H. left. apply (Hd (NS.elements (ms_mask ms)) ms m c HM).
-    destruct (st_drain_ids ms (NS.elements (ms_mask ms)) c) as [[? ?] ?]. exact H.
+    intros H. left. cbv zeta in H. apply (Hd (match lim with Some k => firstn k (NS.elements (ms_mask ms)) | None => NS.elements (ms_mask ms) end) ms m c HM).
+    destruct (st_drain_ids ms _ c) as [[? ?] ?]. exact H.
   - (* entry *)
     unfold st_entry. cbv zeta. destruct (av_alive av ent) eqn:Ha; [|destruct eo; cbn [fst]; auto].
     destruct (NS.mem (fst ent) (ms_mask ms)) eqn:Hmem.
